@@ -125,6 +125,7 @@ OmegaMax == 20000       \* componentwise backward error of X <= 20 (n+1) u  (ref
 ObsGssvx(r, n, c) ==
     /\ NoXerbla(r) /\ ThreadsOK(r)
     /\ r.Aok = 1 /\ r.Bok = 1                                 \* C11: A, B changed exactly as equed/R/C say
+    /\ r.guard = 1                                            \* C14: nothing outside the caller's workspace is written
     /\ (c.fact # "EQUILIBRATE" => r.Aunch = 1)
     /\ r.permc = 1
     /\ IF c.lw = "query"
